@@ -74,6 +74,8 @@ type Exec struct {
 	passModels []PassModel
 	accessAll  map[string]*AccessSummary
 	blockSites map[string]int
+	ifConverted int
+	forkSites   map[string]int
 	lenient    bool
 	initDone   map[string]bool
 	initLog    *[]string
@@ -608,6 +610,12 @@ func (ex *Exec) doIf(st *State, fr *Frame, x *ssa.If) {
 		}
 		return
 	}
+	if ex.tryIfConvert(st, fr, x, c) {
+		return
+	}
+	if ex.tryMergeChain(st, fr, x, c) {
+		return
+	}
 	ex.branches++
 	canT, canF, mT, mF := ex.feasible(st, c)
 	if fr.symBr == nil {
@@ -621,6 +629,9 @@ func (ex *Exec) doIf(st *State, fr *Frame, x *ssa.If) {
 	switch {
 	case canT && canF:
 		ex.forks++
+		if ex.forkSites != nil {
+			ex.forkSites[ex.sitePos(fr, x)+" "+fr.fn.Name()]++
+		}
 		other := st.fork()
 		// other takes the false side
 		ofr := other.top()
@@ -736,4 +747,339 @@ func (ex *Exec) concretize(st *State, t *Term, max int) ([]uint64, bool) {
 		excl = append(excl, mkNe(t, mkBV(t.sort.Bits, v)))
 	}
 	return nil, false
+}
+
+// ------------------------------------------------------------------ switch / || / && chain merging
+//
+// `case '0', '1', ...:` and `a || b || c` compile to a chain of blocks
+//     B_i: t_i = <pure compare>; if t_i goto T else B_{i+1}
+// (and `a && b` to the mirror image with a shared false target).  Forking at
+// every link multiplies paths by the number of alternatives; instead the chain
+// is decided once on the disjunction (conjunction) of its conditions.
+
+func pureForChain(in ssa.Instruction) bool {
+	switch v := in.(type) {
+	case *ssa.BinOp:
+		switch v.X.Type().Underlying().(type) {
+		case *types.Basic:
+			b := v.X.Type().Underlying().(*types.Basic)
+			if b.Info()&(types.IsInteger|types.IsBoolean) != 0 {
+				switch v.Op.String() {
+				case "/", "%", "<<", ">>":
+					return false
+				}
+				return true
+			}
+		}
+		return false
+	case *ssa.UnOp:
+		return v.Op.String() == "!"
+	case *ssa.Convert:
+		_, _, ok1 := typeIntBits(v.X.Type())
+		_, _, ok2 := typeIntBits(v.Type())
+		return ok1 && ok2
+	case *ssa.DebugRef:
+		return true
+	}
+	return false
+}
+
+func predIndex(to, from *ssa.BasicBlock) int {
+	for i, p := range to.Preds {
+		if p == from {
+			return i
+		}
+	}
+	return -1
+}
+
+func numPhis(b *ssa.BasicBlock) int {
+	n := 0
+	for _, in := range b.Instrs {
+		if _, ok := in.(*ssa.Phi); !ok {
+			break
+		}
+		n++
+	}
+	return n
+}
+
+// edgeVal: the value phi ph receives when control arrives from block from.
+func (ex *Exec) edgeVal(st *State, fr *Frame, to *ssa.BasicBlock, ph *ssa.Phi, from *ssa.BasicBlock) (Value, bool) {
+	i := predIndex(to, from)
+	if i < 0 {
+		return nil, false
+	}
+	e := ph.Edges[i]
+	switch x := e.(type) {
+	case *ssa.Const:
+		return constVal(x), true
+	case *ssa.Global:
+		return Ptr{obj: exGlobal(x)}, true
+	case *ssa.Function:
+		return &FuncV{fn: x}, true
+	}
+	idx, ok := fr.info.index[e]
+	if !ok || fr.regs[idx] == nil {
+		return nil, false
+	}
+	return fr.regs[idx], true
+}
+
+// enterWithPhis moves the frame to block to with the given phi values.
+func (ex *Exec) enterWithPhis(fr *Frame, to *ssa.BasicBlock, vals []Value) {
+	fr.block = to
+	for i, v := range vals {
+		fr.regs[fr.info.index[to.Instrs[i].(ssa.Value)]] = v
+	}
+	fr.ip = len(vals)
+	fr.prev = -1
+}
+
+// evalPure executes the pure instructions ins of block blk in place; ok=false if something is not evaluable.
+func (ex *Exec) evalPure(st *State, fr *Frame, blk *ssa.BasicBlock, ins []ssa.Instruction) (ok bool) {
+	ok = true
+	defer func() {
+		if r := recover(); r != nil {
+			ok = false
+		}
+	}()
+	saveBlock, saveIP := fr.block, fr.ip
+	defer func() { fr.block, fr.ip = saveBlock, saveIP }()
+	fr.block = blk
+	for i, in := range ins {
+		fr.ip = i
+		switch v := in.(type) {
+		case *ssa.BinOp:
+			a, aok := ex.get(st, fr, v.X).(*Term)
+			b, bok := ex.get(st, fr, v.Y).(*Term)
+			if !aok || !bok {
+				return false
+			}
+			ex.termBinop(st, fr, v, a, b)
+		case *ssa.UnOp:
+			ex.set(fr, v, mkNot(ex.get(st, fr, v.X).(*Term)))
+		case *ssa.Convert:
+			ex.convert(st, fr, v)
+		}
+		if st.status != "" {
+			return false
+		}
+	}
+	return true
+}
+
+// pureArm: blk has the single predecessor pred, consists of pure instructions and ends in a Jump; returns its target.
+func pureArm(blk, pred *ssa.BasicBlock) (*ssa.BasicBlock, bool) {
+	if len(blk.Preds) != 1 || blk.Preds[0] != pred || len(blk.Instrs) == 0 || len(blk.Instrs) > 12 {
+		return nil, false
+	}
+	if _, ok := blk.Instrs[len(blk.Instrs)-1].(*ssa.Jump); !ok {
+		return nil, false
+	}
+	for _, in := range blk.Instrs[:len(blk.Instrs)-1] {
+		if !pureForChain(in) {
+			return nil, false
+		}
+	}
+	return blk.Succs[0], true
+}
+
+// tryIfConvert: `if c { pure } [else { pure }]` joining at J becomes ite-phis at J, without forking.
+func (ex *Exec) tryIfConvert(st *State, fr *Frame, x *ssa.If, c *Term) bool {
+	B := fr.block
+	T, F := B.Succs[0], B.Succs[1]
+	var J *ssa.BasicBlock
+	var fromT, fromF *ssa.BasicBlock
+	jt, okT := pureArm(T, B)
+	jf, okF := pureArm(F, B)
+	switch {
+	case okT && okF && jt == jf && T != F:
+		J, fromT, fromF = jt, T, F
+	case okT && jt == F:
+		J, fromT, fromF = F, T, B
+	case okF && jf == T:
+		J, fromT, fromF = T, B, F
+	default:
+		return false
+	}
+	if J == B || len(J.Preds) < 2 {
+		return false
+	}
+	if fromT != B && !ex.evalPure(st, fr, fromT, fromT.Instrs[:len(fromT.Instrs)-1]) {
+		return false
+	}
+	if fromF != B && !ex.evalPure(st, fr, fromF, fromF.Instrs[:len(fromF.Instrs)-1]) {
+		return false
+	}
+	n := numPhis(J)
+	vals := make([]Value, n)
+	for i := 0; i < n; i++ {
+		ph := J.Instrs[i].(*ssa.Phi)
+		vt, ok1 := ex.edgeVal(st, fr, J, ph, fromT)
+		vf, ok2 := ex.edgeVal(st, fr, J, ph, fromF)
+		if !ok1 || !ok2 {
+			return false
+		}
+		m, ok := mergeVal(c, vt, vf)
+		if !ok {
+			return false
+		}
+		vals[i] = m
+	}
+	ex.ifConverted++
+	ex.enterWithPhis(fr, J, vals)
+	return true
+}
+
+// effTarget looks through an empty single-predecessor block that only jumps on.
+func effTarget(b *ssa.BasicBlock, from *ssa.BasicBlock) (*ssa.BasicBlock, *ssa.BasicBlock) {
+	if len(b.Preds) == 1 && len(b.Instrs) == 1 {
+		if _, ok := b.Instrs[0].(*ssa.Jump); ok {
+			return b.Succs[0], b
+		}
+	}
+	return b, from
+}
+
+func (ex *Exec) tryMergeChain(st *State, fr *Frame, x *ssa.If, c0 *Term) bool {
+	for _, side := range []int{0, 1} { // 0: shared true target (||, switch); 1: shared false target (&&)
+		shared, from0 := effTarget(fr.block.Succs[side], fr.block)
+		conds := []*Term{c0}
+		chain := []*ssa.BasicBlock{fr.block}
+		phiFrom := []*ssa.BasicBlock{from0}
+		cur := fr.block
+		next := cur.Succs[1-side]
+		for len(chain) < 64 {
+			if len(next.Preds) != 1 || len(next.Instrs) == 0 || len(next.Instrs) > 4 {
+				break
+			}
+			last, ok := next.Instrs[len(next.Instrs)-1].(*ssa.If)
+			if !ok {
+				break
+			}
+			tgt, fromK := effTarget(next.Succs[side], next)
+			if tgt != shared || next.Succs[1-side] == shared {
+				break
+			}
+			pure := true
+			for _, in := range next.Instrs[:len(next.Instrs)-1] {
+				if !pureForChain(in) {
+					pure = false
+					break
+				}
+			}
+			if !pure {
+				break
+			}
+			if !ex.evalPure(st, fr, next, next.Instrs[:len(next.Instrs)-1]) {
+				return false
+			}
+			ct, isT := ex.get(st, fr, last.Cond).(*Term)
+			if !isT {
+				break
+			}
+			conds = append(conds, ct)
+			chain = append(chain, next)
+			phiFrom = append(phiFrom, fromK)
+			cur = next
+			next = cur.Succs[1-side]
+		}
+		if len(chain) < 2 {
+			continue
+		}
+		// phi values at the shared target: ite over the chain's conditions
+		nph := numPhis(shared)
+		phiVals := make([]Value, nph)
+		phiOK := true
+		for i := 0; i < nph && phiOK; i++ {
+			ph := shared.Instrs[i].(*ssa.Phi)
+			var acc Value
+			for k := len(chain) - 1; k >= 0; k-- {
+				ev, ok := ex.edgeVal(st, fr, shared, ph, phiFrom[k])
+				if !ok {
+					phiOK = false
+					break
+				}
+				if acc == nil {
+					acc = ev
+					continue
+				}
+				ck := conds[k]
+				if side == 1 {
+					ck = mkNot(ck)
+				}
+				m, ok := mergeVal(ck, ev, acc)
+				if !ok {
+					phiOK = false
+					break
+				}
+				acc = m
+			}
+			phiVals[i] = acc
+		}
+		if !phiOK {
+			continue
+		}
+		var any *Term
+		if side == 0 {
+			any = mkOr(conds...)
+		} else {
+			any = mkAnd(conds...)
+		}
+		// decide once
+		ex.branches++
+		var canS, canO bool // shared target / other (fall through the whole chain)
+		var mS, mO Model
+		if side == 0 {
+			canS, canO, mS, mO = ex.feasible(st, any)
+		} else {
+			canO, canS, mO, mS = ex.feasible(st, any)
+		}
+		condShared := any
+		if side == 1 {
+			condShared = mkNot(any)
+		}
+		if fr.symBr == nil {
+			fr.symBr = make(map[ssa.Instruction]int)
+		}
+		fr.symBr[x]++
+		if canS && canO && fr.symBr[x] > ex.cfg.Unwind {
+			ex.endPath(st, "unwind", fmt.Sprintf("symbolic branch taken >%d times at %s", ex.cfg.Unwind, ex.sitePos(fr, x)))
+			return true
+		}
+		lastBlk := chain[len(chain)-1]
+		goShared := func(s2 *State, f2 *Frame) {
+			ex.enterWithPhis(f2, shared, phiVals)
+		}
+		goOther := func(s2 *State, f2 *Frame) {
+			f2.block = lastBlk
+			ex.jump(f2, lastBlk.Succs[1-side])
+		}
+		switch {
+		case canS && canO:
+			ex.forks++
+			other := st.fork()
+			ofr := other.top()
+			other.addPC(mkNot(condShared))
+			other.model, other.modelOK = mO, mO != nil
+			other.depth++
+			goOther(other, ofr)
+			ex.work = append(ex.work, other)
+			st.addPC(condShared)
+			st.model, st.modelOK = mS, mS != nil
+			st.depth++
+			goShared(st, fr)
+		case canS:
+			st.addPC(condShared)
+			goShared(st, fr)
+		case canO:
+			st.addPC(mkNot(condShared))
+			goOther(st, fr)
+		default:
+			ex.endPath(st, "infeasible", "both sides of a merged branch chain infeasible at "+ex.sitePos(fr, x))
+		}
+		return true
+	}
+	return false
 }
